@@ -476,3 +476,15 @@ for flag in (True, False):
                  ('dH/dT=Cp', 'D(T * self.get_HoRT(%s), T) == self.get_CpoR(%s)' % (CALL, CALL)),
                  ('dimensional-G=H-TS', "self.get_G(units='kJ/mol', %s) == self.get_H(units='kJ/mol', %s) - T * self.get_S(units='kJ/mol/K', %s)"
                   % (CALL, CALL, CALL.replace('T=T, ', '') + ', T=T'))])
+
+# the zero-point term of E follows the documented error switch when the vibrational model has none
+def species_without_vibrations():
+    return New(SM, name=Const('A'), trans_model=ft3(), elec_model=gse(), nucl_model=New(NU + 'EmptyNucl'))
+
+
+for re_ in (True, False):
+    contract(SM + '.get_EoRT', P, label='include_ZPE,no-vibrational-model,raise_error=%s' % re_,
+             args=dict(self=species_without_vibrations(), T=T, include_ZPE=Const(True), raise_error=Const(re_), raise_warning=Const(False)),
+             requires=['T > 0', 'self.elec_model.spin >= 0'],
+             ensures=[('electronic-energy-only', 'result == self.elec_model.get_UoRT(T=T)')],
+             raises={'AttributeError': 'raise_error'}, cross_check=False)
